@@ -3,8 +3,8 @@ import importlib.util, os, random, struct
 from vlib import core, corr
 
 AREA = "C17"
-MODULES = ["TinsModel.Props.C17"]
-AUDIT = "Audit/C17.lean"
+MODULES = ["TinsModel.Props.C17", "TinsModel.Props.Limits.C17"]   # + the constants / limits tied to the source (translator/gen_limits.py)
+AUDIT = ["Audit/C17.lean", "Audit/LimitsC17.lean"]
 LEVEL = "proof"
 MANIFEST = dict(
     text="Lean 4 theorems over a code-shaped executable model of BaseSniffer::next_packet / sniff_loop / SnifferIterator, "
@@ -20,6 +20,10 @@ MANIFEST = dict(
     technique="Lean 4 proof (induction over the frame list, refinement loop -> filterMap, encode/decode round trip) + "
               "model/implementation correspondence on real pcap files",
     design="DESIGN.md §6 C17")
+MANIFEST["note"] += (" Constants and limits of the C++ source that the model restates (translator/gen_limits.py -> Gen/Limits.lean: "
+                     "compiled probe + preprocessed function bodies at named anchors) are tied to the model's numerals by the "
+                     "theorems of lean/TinsModel/Props/Limits/C17.lean (audit: Audit/LimitsC17.lean); tools/LIMITS-INVENTORY.md lists "
+                     "what is tied and what is not.")
 
 # ----------------------------------------------------------------------------------------------- tables
 
@@ -439,7 +443,12 @@ def sig_of(kind, detail, case):
 def run(chk):
     gen = gen_module()
     gen.main([])                                             # regenerate TinsModel/Gen/Capture.lean (only if changed)
+    from translator import gen_limits
+    gen_limits.main([])          # Gen/Limits.lean: constants and limits read from the current source
+    chk.trusted.append("translator/gen_limits.py (constants / limits of the source -> Gen/Limits.lean: compiled probe + "
+                       "preprocessed function bodies at named anchors; tied to the model numerals by Props/Limits/C17.lean)")
     problems = chk.prove(MODULES, AUDIT, want_leanchecker=(chk.tier == "thorough"))
+    problems = gen_limits.name_failures(chk, problems, "C17")   # name the tie theorems that fail
     exe, err = core.build_harness("c17_capture")
     if exe is None:
         chk.violation("implementation does not build: " + err[-1500:], ["build-error"], nofail=True)
